@@ -2887,6 +2887,9 @@ func (uconn *UConn) ApplyPreset(p *ClientHelloSpec) error {
 			}
 		case *KeyShareExtension:
 			preferredCurveIsSet := false
+			// groups a key share was generated for by this call: of two shares of one group the
+			// first keeps its key, while a key retained by an earlier ApplyPreset is replaced
+			generatedGroups := map[CurveID]bool{}
 			for i := range ext.KeyShares {
 				curveID := ext.KeyShares[i].Group
 				if isGREASEUint16(uint16(curveID)) { // just in case the user set a GREASE value instead of unGREASEd
@@ -2918,7 +2921,10 @@ func (uconn *UConn) ApplyPreset(p *ClientHelloSpec) error {
 					}
 					uconn.HandshakeState.State13.KeyShareKeys.Mlkem = mlkemKey
 					uconn.HandshakeState.State13.KeyShareKeys.MlkemEcdhe = ecdheKey
-					uconn.HandshakeState.State13.KeyShareKeys.retain(curveID, ecdheKey, mlkemKey)
+					if !generatedGroups[curveID] {
+						uconn.HandshakeState.State13.KeyShareKeys.retain(curveID, ecdheKey, mlkemKey)
+						generatedGroups[curveID] = true
+					}
 				} else {
 					ecdheKey, err := generateECDHEKey(uconn.config.rand(), curveID)
 					if err != nil {
@@ -2927,7 +2933,10 @@ func (uconn *UConn) ApplyPreset(p *ClientHelloSpec) error {
 					}
 
 					ext.KeyShares[i].Data = ecdheKey.PublicKey().Bytes()
-					uconn.HandshakeState.State13.KeyShareKeys.retain(curveID, ecdheKey, nil)
+					if !generatedGroups[curveID] {
+						uconn.HandshakeState.State13.KeyShareKeys.retain(curveID, ecdheKey, nil)
+						generatedGroups[curveID] = true
+					}
 					if !preferredCurveIsSet {
 						// only do this once for the first non-grease curve
 						uconn.HandshakeState.State13.KeyShareKeys.Ecdhe = ecdheKey
